@@ -795,7 +795,56 @@ def write_accessors(rows, problems):
     for p in problems: lines.append(f'(* PROBLEM: {p} *)')
     emit('Accessors.v', '\n'.join(lines) + '\n')
 
+def extract_ctors():
+    """heap constructors (non-vmem): the length of a `default(capacity)` / `new_zeroed(capacity)` buffer as a function of the requested
+    capacity; `_from` of both variants: length taken from the storage, zero length refused, published indices 0, no liveness flag set"""
+    problems = []; range_max = 'capacity'; dl = nz = 'capacity'
+    try:
+        src = strip_comments(open(os.path.join(REPO, 'src', 'ring_buffer/storage/heap/rb.rs')).read())
+        m = re.search(r'fn\s+get_range_max\s*\(\s*(\w+)\s*:\s*usize\s*\)\s*->\s*usize\s*\{(.*?)\n\}', src, re.S)
+        if not m: raise SyntaxError('get_range_max not found')
+        arg, body = m.group(1), m.group(2)
+        nv = re.search(r'#\[cfg\(not\(feature\s*=\s*"vmem"\)\)\]\s*(?:return\s+)?([^;{}]+?)\s*;?\s*$', body.strip(), re.S)
+        if not nv: raise SyntaxError(f'get_range_max: no plain non-vmem result in `{" ".join(body.split())}`')
+        range_max = rust_expr_to_coq(nv.group(1), {arg: 'capacity'})
+        m = re.search(r'fn\s+new_zeroed\s*\(\s*(\w+)\s*:\s*usize\s*\)(.*?)\n            \}', src, re.S)
+        if not m: raise SyntaxError('new_zeroed not found')
+        r = re.search(r'\(\s*0\s*\.\.\s*get_range_max\(\s*' + m.group(1) + r'\s*\)\s*\)\s*\.map\(\s*\|_\|\s*UnsafeSyncCell::new_zeroed\(\)\s*\)\s*\.collect', m.group(2))
+        if not r: raise SyntaxError('new_zeroed: not `(0..get_range_max(capacity)).map(|_| UnsafeSyncCell::new_zeroed()).collect()`')
+        m = re.search(r'fn\s+default\s*\(\s*(\w+)\s*:\s*usize\s*\)(.*?)\n            \}', src, re.S)
+        if not m: raise SyntaxError('default not found')
+        r = re.search(r'vec!\[\s*T::default\(\)\s*;\s*get_range_max\(\s*' + m.group(1) + r'\s*\)\s*\]', m.group(2))
+        if not r: raise SyntaxError('default: not `vec![T::default(); get_range_max(capacity)]`')
+        dl = nz = range_max
+    except (SyntaxError, OSError) as ex:
+        problems.append(f'ring_buffer/storage/heap/rb.rs: {ex}')
+    froms = []
+    for variant, rel in (('local', 'ring_buffer/variants/local_rb.rs'), ('conc', 'ring_buffer/variants/concurrent_rb.rs')):
+        try:
+            src = strip_comments(open(os.path.join(REPO, 'src', rel)).read())
+            m = re.search(r'fn\s+_from\s*\(\s*(\w+)\s*:\s*S\s*\)[^{]*\{(.*?)\n    \}', src, re.S)
+            if not m: raise SyntaxError('_from not found')
+            v, bd = m.group(1), re.sub(r'\s+', '', m.group(2))
+            ok = (f'assert!({v}.len()>0);' in bd and f'inner_len:NonZeroUsize::new({v}.len()).unwrap()' in bd and f'inner:{v}.into()' in bd
+                  and all(re.search(rf'{k}_idx:(?:CachePadded::new\()?0\.into\(\)', bd) for k in ('prod', 'work', 'cons'))
+                  and (all(f'{k}_alive:false.into()' in bd for k in ('prod', 'work', 'cons')) or 'alive:AtomicU8::new(0)' in bd))
+            froms.append((variant, ok))
+            if not ok: problems.append(f'{rel}::_from: not the plain constructor (length of the storage, zero refused, indices 0, no flag set)')
+        except (SyntaxError, OSError) as ex:
+            problems.append(f'{rel}: {ex}'); froms.append((variant, False))
+    lines = ['(* GENERATED by tools/extract_facts.py from /repo/src on every run - do not edit *)',
+             'From Coq Require Import List String Bool Arith.', 'Import ListNotations.', 'Open Scope string_scope.', '',
+             '(* heap constructors without vmem: length of the buffer as a function of the requested capacity *)',
+             f'Definition default_len (capacity : nat) : nat := {dl}.',
+             f'Definition new_zeroed_len (capacity : nat) : nat := {nz}.',
+             '(* _from of both variants: is it the plain constructor? *)',
+             'Definition from_ok : list (string * bool) := [' + '; '.join(f'("{v}", {b(ok)})' for v, ok in froms) + '].',
+             f'Definition extractor_clean : bool := {b(not problems)}.'] + [f'(* PROBLEM: {x} *)' for x in problems]
+    emit('Ctors.v', '\n'.join(lines) + '\n')
+    return problems
+
 def main():
+    for x in extract_ctors(): print('extract_facts: PROBLEM:', x)
     ar, ap = extract_accessors()
     write_accessors(ar, ap)
     for x in ap: print('extract_facts: PROBLEM:', x)
